@@ -31,6 +31,9 @@ pub struct Case {
     /// contents of an output file that exists before the tool runs (a rebuild)
     #[serde(default)]
     pub stale_output: Option<String>,
+    /// hex bytes appended to the input (file or stdin) to make it invalid UTF-8
+    #[serde(default)]
+    pub invalid_utf8_tail: Option<String>,
 }
 
 pub fn cli_path() -> PathBuf {
@@ -78,6 +81,7 @@ fn mk(class: &str, files: Vec<(String, String)>, f: Flags, load_paths: Vec<Strin
         no_unicode: f.no_unicode,
         load_paths,
         stale_output: if f.out_file && !f.stdin { f.stale } else { None },
+        invalid_utf8_tail: None,
     }
 }
 
@@ -88,7 +92,7 @@ struct Run {
     timed_out: bool,
 }
 
-fn run_cli(dir: &PathBuf, args: &[String], stdin_text: Option<&str>) -> std::io::Result<Run> {
+fn run_cli(dir: &PathBuf, args: &[String], stdin_text: Option<&Vec<u8>>) -> std::io::Result<Run> {
     let mut child = Command::new(cli_path())
         .args(args)
         .current_dir(dir)
@@ -98,9 +102,9 @@ fn run_cli(dir: &PathBuf, args: &[String], stdin_text: Option<&str>) -> std::io:
         .spawn()?;
     if let Some(t) = stdin_text {
         let mut si = child.stdin.take().unwrap();
-        let t = t.to_string();
+        let t = t.clone();
         std::thread::spawn(move || {
-            let _ = si.write_all(t.as_bytes());
+            let _ = si.write_all(&t);
         });
     }
     let mut so = child.stdout.take().unwrap();
@@ -145,7 +149,7 @@ impl Prop for C20 {
         "C20"
     }
     fn rule(&self) -> String {
-        "inputs: corpus entries (valid and failing), corpus mutations, generated value-heavy sheets, generated logging programs (@debug/@warn/@error, imported files) and projects loaded through --load-path (incl. the same module in 2-3 load paths given in arbitrary order), x every subset of {--style compressed, --no-charset, --quiet, --no-unicode} x {file argument, --stdin} x {stdout, output file (fresh, or already existing with shorter/longer stale content)}, run through the built binary in a scratch working directory. Oracle: the same input compiled in-process with the equivalent Options over the same files: Ok(css) => exit 0, stdout (or the output file, stdout empty) byte-equal to css, every Logger message on stderr in order, stderr empty when nothing was logged or --quiet; Err(e) => exit != 0, stdout empty, output file empty or absent, stderr contains the rendered error. Non-trivial = >= 2 non-default flags, or a failing input, or warnings present, or an output file; distinct by (files, flags).".into()
+        "inputs: corpus entries (valid and failing), corpus mutations, generated value-heavy sheets, generated logging programs (@debug/@warn/@error, imported files), large sheets behind a preserved banner comment, inputs that are not valid UTF-8 and projects loaded through --load-path (incl. the same module in 2-3 load paths given in arbitrary order), x every subset of {--style compressed, --no-charset, --quiet, --no-unicode} x {file argument, --stdin} x {stdout, output file (fresh, or already existing with shorter/longer stale content)}, run through the built binary in a scratch working directory. Oracle: the same input compiled in-process with the equivalent Options over the same files: Ok(css) => exit 0, stdout (or the output file, stdout empty) byte-equal to css, every Logger message on stderr in order, stderr empty when nothing was logged or --quiet; Err(e) => exit != 0, stdout empty, output file empty or absent, stderr contains the rendered error. Non-trivial = >= 2 non-default flags, or a failing input, or warnings present, or an output file; distinct by (files, flags).".into()
     }
     fn assumptions(&self) -> Vec<String> {
         vec![
@@ -206,8 +210,31 @@ impl Prop for C20 {
             }
             mk("load-path-precedence", files, f, lp)
         });
+        // a large sheet behind a preserved multi-line banner (compressed output = one long line
+        // after the banner's newlines)
+        let large = (choices(400), any::<u8>(), flags()).prop_map(|(ch, reps, f)| {
+            let mut c = Chooser::new(&ch);
+            let mut src = String::from("/*! banner\n * second line\n */\n");
+            let one = gen_sheet(&mut c, SheetOpts::default()).scss;
+            let body: String = one.lines().filter(|l| !l.starts_with("@use") && !l.starts_with("@import") && !l.starts_with('$')).collect::<Vec<_>>().join("\n");
+            src.push_str("@use \"sass:math\";\n$i: 3;\n$n: 0.5;\n$c: #ff0000;\n$s: \"str\";\n$l: 1px 2px 3px;\n");
+            for k in 0..(8 + reps as usize % 40) {
+                src.push_str(&format!(".rep{} {{\n  w: {}px;\n}}\n", k, k));
+                src.push_str(&body);
+                src.push('\n');
+            }
+            mk("large-sheet", vec![("input.scss".into(), src)], f, vec![])
+        });
+        // input that is not valid UTF-8 (file and --stdin): must fail, never be "repaired"
+        let bad_utf8 = (any::<u8>(), flags()).prop_map(|(k, f)| {
+            let src = ["a {\n  b: \"x", "// note ", "a {\n  b: c;\n}\n/* "][k as usize % 3].to_string();
+            let tail = ["e9", "c3", "f09f98", "ff", "80", "e9223b7d"][(k / 3) as usize % 6].to_string();
+            let mut c = mk("invalid-utf8-input", vec![("input.scss".into(), src)], f, vec![]);
+            c.invalid_utf8_tail = Some(tail);
+            c
+        });
         let missing = flags().prop_map(|f| mk("missing-input-file", vec![("other.scss".into(), "a{b:c}".into())], Flags { stdin: false, ..f }, vec![]));
-        let s = prop_oneof![4 => from_corpus, 3 => mutated, 3 => sheets, 4 => logs, 2 => project, 2 => precedence, 1 => missing].boxed();
+        let s = prop_oneof![4 => from_corpus, 3 => mutated, 3 => sheets, 4 => logs, 2 => project, 2 => precedence, 2 => large, 2 => bad_utf8, 1 => missing].boxed();
         Some((s, tier.pick(3_000, 40_000)))
     }
     fn check(&self, case: &Case, cx: &mut Ctx) -> Verdict {
@@ -219,11 +246,20 @@ impl Prop for C20 {
         let input_name = if case.class == "missing-input-file" { "input.scss".to_string() } else { case.files[0].0.clone() };
         let input_text = case.files[0].1.clone();
         // ---- reference: the library, in-process (sandboxed worker), over the same files ----
-        let mut s = Single::scss("");
-        for (n, t) in &case.files {
-            s.files.push((n.clone(), Bytes::Text(t.clone())));
+        let mut input_bytes: Vec<u8> = input_text.as_bytes().to_vec();
+        if let Some(h) = &case.invalid_utf8_tail {
+            input_bytes.extend(Bytes::Hex(h.clone()).to_vec());
         }
-        s.entry = if case.stdin { Entry::Text(input_text.clone()) } else { Entry::Path(input_name.clone()) };
+        let mut s = Single::scss("");
+        for (i, (n, t)) in case.files.iter().enumerate() {
+            if i == 0 && case.invalid_utf8_tail.is_some() {
+                s.files.push((n.clone(), Bytes::from_vec(input_bytes.clone())));
+            } else {
+                s.files.push((n.clone(), Bytes::Text(t.clone())));
+            }
+        }
+        // bytes that are not UTF-8 cannot be handed to from_string: the reference reads them as a file
+        s.entry = if case.stdin && case.invalid_utf8_tail.is_none() { Entry::Text(input_text.clone()) } else { Entry::Path(input_name.clone()) };
         s.style = if case.compressed { Style::Compressed } else { Style::Expanded };
         s.charset = !case.no_charset;
         s.quiet = case.quiet;
@@ -237,12 +273,13 @@ impl Prop for C20 {
         // ---- the binary ----
         let dir = cx.worker.scratch_dir().join(format!("c20_{}", cx.stats.evaluations));
         let _ = std::fs::remove_dir_all(&dir);
-        for (n, t) in &case.files {
+        for (i, (n, t)) in case.files.iter().enumerate() {
             let p = dir.join(n);
             if let Some(par) = p.parent() {
                 let _ = std::fs::create_dir_all(par);
             }
-            if std::fs::write(&p, t).is_err() {
+            let data: Vec<u8> = if i == 0 { input_bytes.clone() } else { t.as_bytes().to_vec() };
+            if std::fs::write(&p, data).is_err() {
                 cx.inconclusive("scratch-write-failed");
                 return Verdict::Discard;
             }
@@ -284,7 +321,7 @@ impl Prop for C20 {
             }
             args.push("out.css".into());
         }
-        let run = match run_cli(&dir, &args, if case.stdin { Some(&input_text) } else { None }) {
+        let run = match run_cli(&dir, &args, if case.stdin { Some(&input_bytes) } else { None }) {
             Ok(r) => r,
             Err(e) => {
                 cx.inconclusive(&format!("spawn-failed:{}", e.kind()));
@@ -357,7 +394,7 @@ impl Prop for C20 {
                 }
                 // the rendered error (trailing newline aside) must be on stderr
                 let want = e.display.trim_end();
-                let want = if e.kind == "io" {
+                let want = if e.kind == "io" || e.kind == "utf8" {
                     // the OS error text differs between the in-memory and the real file system
                     "Error: ".to_string()
                 } else if e.kind == "parse" && e.file != input_name && e.file != "stdin" {
